@@ -22,7 +22,7 @@ Shape(e) == e.kind = "full" /\ Len(e.cands) >= 1
 
 PList ==
     /\ l <= Len(Rec) /\ E.ev = "plist"
-    /\ Require(Shape(E), "not a non-empty list-style suggestion")
+    /\ Require(Focus = "C01" \/ Shape(E), "not a non-empty list-style suggestion")
     /\ IF ~WordAgrees(E) THEN TRUE      \* facts are about another word than the specification's split: skip
        ELSE CASE Focus = "C07" ->
                     /\ Require(NoDuplicates(E), "C07: a candidate text occurs twice")
@@ -42,7 +42,7 @@ PList ==
 
 FList ==
     /\ l <= Len(Rec) /\ E.ev = "flist"
-    /\ Require(Shape(E), "not a non-empty list-style suggestion")
+    /\ Require(Focus = "C01" \/ Shape(E), "not a non-empty list-style suggestion")
     /\ IF ~FWordAgrees(E) THEN TRUE
        ELSE CASE Focus = "C15" ->
                     /\ Require(FFirstIsComposed(E), "C15: the first candidate is not the composed text (with curling)")
